@@ -19,6 +19,9 @@ type C12Case struct {
 	// Wrap: the including template also defines a macro of its own whose body calls the first
 	// library macro the same way the call sites do (a macro reached from inside another macro)
 	Wrap bool `json:"wrap,omitempty"`
+	// Shadow: where the call sites name the library macros through a module or an alias, the
+	// calling template defines a macro of its own under the first library macro's plain name
+	Shadow bool `json:"shadow,omitempty"`
 }
 
 var c12Forms = []string{"local", "self", "import", "from", "alias", "fromonly"}
@@ -71,6 +74,9 @@ func c12Set(c C12Case, form string) TSet {
 		call := &E{K: "mcall", S: c.Macros[0].Name, M: "local", A: []*E{Var("a"), Int(2)}}
 		wrapper := &S{K: "macro", Name: "c12wrap", Params: []Param{{Name: "a"}}, Body: []*S{Text("W["), Print(call), Text("]")}}
 		body = append(append([]*S{wrapper}, body...), Print(&E{K: "mcall", S: "c12wrap", M: "wrapper", A: []*E{Int(1)}}))
+	}
+	if c.Shadow && len(c.Macros) > 0 && (form == "import" || form == "alias") {
+		main.Body = append(main.Body, &S{K: "macro", Name: c.Macros[0].Name, Params: []Param{{Name: "zz"}}, Body: []*S{Text("LOCAL-SHADOW")}})
 	}
 	switch form {
 	case "local", "self":
@@ -290,8 +296,20 @@ func genC12(t *rapid.T) (C12Case, map[string]bool) {
 	c.Ctx.Set("q", Str(rapid.SampledFrom([]string{"Q", "qq"}).Draw(t, "q")))
 	c.Ctx.Set("r", Int(0))
 	c.Ctx.Set("xs", List(Int(4), Int(5)))
+	c.Ctx.Set("dv", Int(int64(10+g.pick(9, "dv"))))
 	nm := rapid.IntRange(1, 4).Draw(t, "nmacros")
-	for i := 0; i < nm; i++ {
+	forward := nm >= 2 && g.pick(3, "forward") == 0
+	if forward {
+		// macros call siblings defined further down in the library
+		g.stats["calls-later-sibling"] = true
+		var later []*S
+		for i := nm - 1; i >= 0; i-- {
+			m := g.macro(i, later)
+			later = append([]*S{m}, later...)
+		}
+		c.Macros = later
+	}
+	for i := 0; i < nm && !forward; i++ {
 		if i == 0 && c12Recursion && g.pick(4, "recursive") == 0 {
 			// a macro that calls itself (bare name or _self), also as the only macro of its library
 			g.stats["recursive"] = true
@@ -303,6 +321,7 @@ func genC12(t *rapid.T) (C12Case, map[string]bool) {
 		}
 		c.Macros = append(c.Macros, g.macro(i, c.Macros))
 	}
+	c.Shadow = g.pick(3, "shadow") == 0
 	c.Wrap = g.pick(3, "wrap") == 0
 	if c.Wrap {
 		g.stats["called-from-another-templates-macro"] = true
@@ -324,10 +343,21 @@ func genC12(t *rapid.T) (C12Case, map[string]bool) {
 		}
 		c.Body = append(c.Body, c12Probes()...)
 	}
+	if g.pick(4, "hashdefault") == 0 {
+		// a default that is a hash / list literal built from the caller's variables: it has to be
+		// evaluated at every call (the loop variable i changes between calls)
+		g.stats["default-built-from-caller-variables"] = true
+		c.Macros = append(c.Macros, &S{K: "macro", Name: "mh", Params: []Param{{Name: "h", Def: Hash([]string{"class", "n"}, []*E{Var("i"), Var("dv")})}, {Name: "l", Def: List(Var("i"), Int(0))}},
+			Body: []*S{Text("<mh "), Print(Filt(Attr(Var("h"), "class"), "default", Str("-"))), Text("/"), Print(Attr(Var("h"), "n")), Text("/"), Print(Filt(Var("l"), "join", Str(","))), Text(">")}})
+		mh := func(args ...*E) *S { return Print(&E{K: "mcall", S: "mh", M: "local", A: args}) }
+		// (nothing reads i after the loop: what a loop variable holds then is not part of the claim)
+		c.Body = append([]*S{mh(), mh(Hash([]string{"class", "n"}, []*E{Str("X"), Int(1)}))}, c.Body...)
+		c.Body = append(c.Body, &S{K: "for", Name: "i", E: Var("xs"), Body: []*S{mh(), Text(";")}})
+	}
 	return c, g.stats
 }
 
-const c12Rule = "libraries of 1-4 macros with 0-5 parameters (names overlapping the caller's variables), any subset with default expressions, bodies that print/test/default their parameters, assign names the caller probes call earlier macros of the library (bare name or _self) or themselves (recursion, also in a one-macro library); a macro of the calling template that calls into the library; call sites with fewer/equal/more arguments at top level, in loops (loop variable and counters as arguments), blocks and conditionals; every case rendered through all five forms (local, _self, import as, from import, from import as alias); non-trivial = argument count != parameter count, or a default is declared, or a parameter shadows an outer variable, or a macro calls a sibling; distinct by (library, call sites)"
+const c12Rule = "libraries of 1-4 macros with 0-5 parameters (names overlapping the caller's variables), any subset with default expressions, bodies that print/test/default their parameters, assign names the caller probes call earlier macros of the library (bare name or _self) or themselves (recursion, also in a one-macro library); a macro of the calling template that calls into the library; siblings defined later in the library; defaults built from the caller's variables (hash and list literals, evaluated at every call); a macro of the calling template named like a library macro that is reached through a module or an alias; call sites with fewer/equal/more arguments at top level, in loops (loop variable and counters as arguments), blocks and conditionals; every case rendered through all five forms (local, _self, import as, from import, from import as alias); non-trivial = argument count != parameter count, or a default is declared, or a parameter shadows an outer variable, or a macro calls a sibling; distinct by (library, call sites)"
 
 func TestC12Macros(t *testing.T) {
 	r := NewRec(t, "C12", c12Rule)
